@@ -134,8 +134,9 @@ type c16X struct {
 	kind   string
 	judged int
 	mv     bool
-	via    int // parse path of the current delivery (see parse)
-	at     int // explicit time of VerifyWithChainAtTime (0: the simulated now)
+	via    int  // parse path of the current delivery (see parse)
+	at     int  // explicit time of VerifyWithChainAtTime (0: the simulated now)
+	empty  bool // the verifier's trust store is a non-nil pool WITHOUT any certificate
 }
 
 func (x *c16X) fail(class, format string, args ...any) {
